@@ -792,3 +792,19 @@ def idalloc_memory(prog, rep, rule="IDALLOC"):
             rep.undecided(rule, fi.short, f"id = {norm(v)[:50]}", "unrecognised id allocation", fi.loc(a))
     if not found:
         rep.violation(rule, fi.short, "new id", "no max(...)+k id allocation found for new events", fi.loc())
+    # any other method that numbers events: each numbered object must be a copy of its own
+    from .trace import deep
+
+    ci = prog.cls("MemoryStorage")
+    for m in ci.methods.values():
+        for lp in [n for n in walk_own(m.node) if isinstance(n, ast.For)]:
+            tv = lp.target.elts[-1] if isinstance(lp.target, ast.Tuple) else lp.target
+            if not isinstance(tv, ast.Name):
+                continue
+            ids = [a for a in ast.walk(lp) if isinstance(a, ast.Assign) and any(norm(t) == f"{tv.id}.id" for t in a.targets) and not (isinstance(a.value, ast.Constant) and a.value.value is None)]
+            if not ids:
+                continue
+            it = lp.iter.args[0] if isinstance(lp.iter, ast.Call) and norm(lp.iter.func) == "enumerate" and lp.iter.args else lp.iter
+            src = deep(it, m)
+            if isinstance(src, ast.Call) and norm(src.func) in ("copy.deepcopy", "deepcopy") and src.args:
+                rep.violation(rule, m.short, f"{tv.id}.id = {norm(ids[0].value)[:40]}", f"ids are assigned to the elements of a list that was deep-copied as a whole (`{norm(src)[:70]}`): deepcopy keeps objects that occur twice in the caller's list as ONE object, so both slots of the bucket hold the same event and end up with the same (last) id: ids are no longer unique within the bucket", m.loc(ids[0]), expected="one copy per element (copy.deepcopy(event) inside the loop)", found=norm(src)[:100])
